@@ -39,6 +39,21 @@ def run_tool(bdir, tool, path, wd, opts=()):
     return rc, err, n
 
 
+def stratify(cases, per=1):
+    """quick-tier selection: `per` schemas of every stratum (inheritance shape x type shape x naming), the other
+    choices taken from the middle of the stratum"""
+    strata = {}
+    for c in sorted(cases, key=lambda c: json.dumps(c["choice"], sort_keys=True)):
+        ch = c["choice"]
+        strata.setdefault((ch["inh"], ch["ts"]["k"], ch["ts"].get("of", ""), ch.get("nm", "")), []).append(c)
+    out = []
+    for k in sorted(strata):
+        v = strata[k]
+        mid = len(v) // 2
+        out.extend(v[mid:mid + per])
+    return out
+
+
 def inputs(ctx, cases, wd):
     """[(tag, path, expect, mutant or None, schema case)] - files written under wd/in"""
     ind = mkdir(os.path.join(wd, "in"))
